@@ -15,6 +15,7 @@ def main():
     from kv.checks import c09
     db, ackfile, case, env = sys.argv[1], sys.argv[2], json.loads(sys.argv[3]), json.loads(sys.argv[4])
     rig.install_clock(rig.VClock(step=0))
+    c09.server_logging(os.environ.get('KV_C09_DEBUG') == '1')
     seq = c09.sequence(case, env)
     srv = rig.Server(db)
     fd = os.open(ackfile, os.O_WRONLY | os.O_CREAT | os.O_APPEND)
